@@ -24,10 +24,15 @@ func init() {
 // high seqnos (stored seqno <= high; the other case is C15) and failover uuids.
 func H_C02_load() {
 	setMerge(true)
-	fx := vNewFixture(func() []uint16 { return []uint16{0, 1} })
-	var has [2]bool
-	var docs [2]*models.CheckpointDocument
-	for vb := 0; vb < 2; vb++ {
+	n := 2
+	if tierThorough() {
+		n = 3 // three assigned vBuckets of four: eight subsets of stored checkpoints, three opening goroutines
+	}
+	assigned := []uint16{0, 1, 2}[:n]
+	fx := vNewFixture(func() []uint16 { return assigned })
+	var has [3]bool
+	var docs [3]*models.CheckpointDocument
+	for vb := 0; vb < n; vb++ {
 		fx.cl.high[vb] = nondetU64("high")
 		fx.cl.failover[vb] = gocbcore.VbUUID(nondetU64("failover"))
 		has[vb] = nondetBool("hasDoc")
@@ -55,9 +60,9 @@ func H_C02_load() {
 	}
 	fx.s.Open()
 
-	assert(len(fx.cl.openCalls) == 2, "exactly one stream request per assigned vBucket")
-	anyDoc := has[0] || has[1]
-	for vb := 0; vb < 2; vb++ {
+	assert(len(fx.cl.openCalls) == n, "exactly one stream request per assigned vBucket")
+	anyDoc := has[0] || has[1] || has[2]
+	for vb := 0; vb < n; vb++ {
 		calls := fx.openCallsFor(uint16(vb))
 		assert(len(calls) == 1, "one request for this vBucket")
 		c := calls[0]
@@ -87,7 +92,7 @@ func H_C02_load() {
 		assert(ok2 && tr == c.offset, "the tracked position starts at the requested one")
 	}
 	_, _, flag := fx.s.GetOffsets()
-	if !anyDoc && fx.cfg.Checkpoint.AutoReset == "latest" && (fx.cl.high[0] != 0 || fx.cl.high[1] != 0) {
+	if !anyDoc && fx.cfg.Checkpoint.AutoReset == "latest" && (fx.cl.high[0] != 0 || fx.cl.high[1] != 0 || (n > 2 && fx.cl.high[2] != 0)) {
 		assert(flag, "a latest start above zero is flagged for saving")
 	}
 	assert(fx.s.IsOpen(), "stream reports open")
